@@ -48,6 +48,18 @@ NEEDS = {
  "C20b-rescale-factors-rebinds-scale": "same patch as C21b, asked for under C20: a star wide enough that the parent's message scale underflows within one sweep (>=45 children, max_shape <= 10), max_iterations % 3 == 2",
  "C13b-argmax-over-stale-tail": "several trees; a child whose later-visited parent is assigned an earlier timepoint than its first-visited parent and whose inside value peaks beyond it",
  "C10b-inside-pass-zeroes-first-timepoint": "a user-supplied prior grid with positive mass at the first timepoint for a non-sample node and no mutations below that node",
+ "C31b-parent-via-mutation-edge-index": "a mutation above a local root, node_selection parent/arithmetic/geometric, several trees whose roots differ in age",
+ "C23b-leading-edge-table-across-blocks": "unphased singletons, rescaling on, several trees where a terminal edge is the second edge of one block and the first edge of a later block",
+ "C32b-date-drops-set-metadata": "a call through tsdate.date() with set_metadata True or False (the named functions are unaffected)",
+ "C34b-cli-eps-from-min-branch-length": "tsdate date with a discrete method and -e / -b set to different values",
+ "C25b-iqr-cap-after-newton-removed": "rescaling on and a node at the shape cap whose re-fitted shape exceeds max_shape (small max_shape or thousands of mutations per node)",
+ "C30b-sample-mask-flag-equality": "variational_gamma, allow_unary=False, a locally unary SAMPLE node carrying an extra flag bit and no unary non-sample node",
+ "C28b-simplify-filter-flags-swapped": "an interval is actually deleted AND filter_individuals=True with filter_sites left False (or the reverse) AND a mutation-free site / unreferenced individual exists",
+ "C09b-imap-unordered-zipped-by-position": "num_threads >= 2, more than 64 distinct (mutations, span) keys, and a later batch of the unordered pool finishing first",
+ "C22b-singleton-move-only-when-rescaling": "singletons_phased=False with rescaling switched off (rescaling_intervals=0 or rescaling_iterations=0)",
+ "C26b-pelt-prune-without-penalty-slack": "_poisson_changepoints with penalty > 0 and >= 3 observations whose optimum passes through a changepoint that was not the running argmin",
+ "C27b-forced-pass-skips-sample-sample-edges": "a sample-to-sample edge (internal / ancient sample above a sample) whose child is raised or whose length is below min_branch_length",
+ "C29b-isclose-gap-not-split": "genomic coordinates >= ~1e5 and a gap in a node's ancestry narrower than 1e-5 x position",
 }
 for d in sorted(glob.glob(os.path.join(ROOT, "seeded", "*"))):
     name = os.path.basename(d)
